@@ -196,3 +196,26 @@ Definition ropen (c : cfg) (bs : bytes) : res (list (str * bytes) * bytes * byte
     else Err
   | None => Err
   end.
+
+(* ---------------- the Reader as an iterator ---------------- *)
+(* reader/mod.rs:145-160 (and the deserializing twin, 169-185): what the block reader produced is handed out item by
+   item; an error is handed out once and latches the iterator - every later call returns None. *)
+Record riter := mkRI { ri_pending : list value; ri_end : rend; ri_errored : bool }.
+Inductive ritem := RValue (v : value) | RError.
+
+Definition rnext (it : riter) : option ritem * riter :=
+  if ri_errored it then (None, it)
+  else match ri_pending it with
+       | v :: r => (Some (RValue v), mkRI r (ri_end it) false)
+       | [] => match ri_end it with
+               | Clean => (None, it)
+               | Failed => (Some RError, mkRI [] Failed true)
+               end
+       end.
+
+(* the first n answers of the iterator *)
+Fixpoint rtake (n : nat) (it : riter) : list (option ritem) :=
+  match n with
+  | O => []
+  | S k => let '(o, it') := rnext it in o :: rtake k it'
+  end.
